@@ -13,7 +13,7 @@ From Coq Require Import QArith Sorting.Permutation.
 From RecordUpdate Require Import RecordUpdate.
 From Asynkit Require Import Base.Prelude Queue.ListFacts Queue.PQ Queue.PosPQ Queue.Exec
      Sched.Model Sched.PartTables Sched.PartitionProofs Sched.PartitionSteps Sched.PartitionRun
-     Sched.ThrowProofs Sched.TimeoutProofs Sched.TimeoutCompose Sched.InterruptNext.
+     Sched.ThrowProofs Sched.TimeoutProofs Sched.TimeoutCompose Sched.ErrorsFrame Sched.InterruptNext.
 Import RecordSetNotations.
 Open Scope nat_scope.
 
@@ -122,6 +122,98 @@ Proof.
       rewrite <- (interrupt_call_eq 0 t tok s), L. reflexivity. }
     split; [exact I'|]. split; [exact Pp|]. split; [exact G|].
     repeat (split; [assumption|]). exact P5.
+Qed.
+
+(* C15_interrupt_then_yield for QNextW queues: identical statement *)
+Theorem interrupt_then_yieldW s t t' e s' k :
+  InvC (Some t) s -> tdone s t = false ->
+  lib_call t (OTaskInterrupt t' e) s = (s', LSusp YNone [InSleep0]) ->
+  exec t (Call (OTaskInterrupt t' e) k) s = (s', OYield YNone [InSleep0] k) /\
+  let sf := finish_step t s' (OYield YNone [InSleep0] k) <| current := None |> in
+  let hn := length (handles s) in
+  t' <> t /\
+  exists l r'',
+    rq_items (ready sf) = hn :: l /\
+    geth sf hn = mkH (HStep t' (Some e)) false /\
+    geth sf (S hn) = mkH (HStep t None) false /\
+    In (S hn) l /\
+    (forall h, In h l -> task_key sf t' h = false) /\
+    (forall h, In h l -> task_key sf t h = true -> h = S hn) /\
+    tcont_ (gett sf t) = TSusp [InSleep0] k /\
+    rq_popleft (ready sf) = Some (hn, r'') /\ rq_items r'' = l /\
+    run_one sf = step_task t' (Some e) (sf <| ready := r'' |>).
+Proof.
+  intros I Hdt L. split; [cbn [exec]; rewrite L; reflexivity|]. intros sf hn.
+  destruct (interrupt_nextW (Some t) s t t' e s' I L)
+    as (s1 & v & r' & r0 & l0 & E & Es' & Q1 & P & I' & G & It & Pl0 & Z0 & _ & _ & _ & Hd' & H1' & Hq).
+  fold hn in Es', P, G, It.
+  assert (Z : forall h, In h (rq_items r') -> task_key s' t' h = false).
+  { intros h Hh. apply Z0. eapply Permutation_in; [apply Permutation_sym; exact Pl0|exact Hh]. }
+  pose proof (throw_effect qok QS (Some t) s t' e s1 v I E) as TE. cbv zeta in TE.
+  destruct TE as (I1 & Hnc & _ & _ & _ & _ & Hh & _ & _ & Hfs & _ & _ & Hgo & _).
+  assert (Hne : t' <> t).
+  { intros ->. simpl in Hnc. rewrite Nat.eqb_refl in Hnc. discriminate. }
+  split; [exact Hne|].
+  pose proof (i_cur I' t eq_refl) as Ht'.
+  assert (Hdt' : tdone s' t = false).
+  { rewrite Es'. unfold tdone, fdone in *. change (gett (s1 <| ready := rq_insert_pos r' 0 hn |>) t) with (gett s1 t).
+    change (getf (s1 <| ready := rq_insert_pos r' 0 hn |>)) with (getf s1).
+    rewrite (Hgo t (not_eq_sym Hne)), Hfs. exact Hdt. }
+  pose proof (Hq eq_refl Hdt') as H0.
+  assert (Hl : length (handles s') = S hn).
+  { rewrite Es'. change (handles (s1 <| ready := rq_insert_pos r' 0 hn |>)) with (handles s1).
+    rewrite Hh, app_length. simpl. unfold hn. lia. }
+  set (x := gett s' t <| tcont_ := TSusp [InSleep0] k |>).
+  assert (Esf : sf = call_soon_ (sett s' t x) (HStep t None) <| current := None |>) by reflexivity.
+  assert (Hhs : handles sf = handles s' ++ [mkH (HStep t None) false]) by reflexivity.
+  set (pr := handle_priority (sett s' t x <| handles := handles s' ++ [mkH (HStep t None) false] |>) (HStep t None)).
+  assert (Er : ready sf = rq_append (rq_insert_pos r' 0 hn) (S hn) pr).
+  { assert (Er0 : ready sf = rq_append (ready s') (length (handles s')) pr) by reflexivity.
+    rewrite Er0, Hl. f_equal. rewrite Es'. reflexivity. }
+  destruct (qw_behind QN r' hn (S hn) pr Q1) as (l & El & Pl). rewrite <- Er in El.
+  assert (Qf : qok (ready sf)).
+  { rewrite Er. apply (q_append QS). apply (q_insert QS). exact Q1. }
+  destruct (qw_pop QN _ hn l Qf El) as (r'' & Pp & It'' & _).
+  assert (Gold : forall h, h < length (handles s') -> geth sf h = geth s' h).
+  { intros h Hlt. unfold geth. rewrite Hhs, app_nth1; auto. }
+  assert (Gn : geth sf hn = mkH (HStep t' (Some e)) false).
+  { rewrite Gold by lia. exact G. }
+  assert (Gn1 : geth sf (S hn) = mkH (HStep t None) false).
+  { unfold geth. rewrite Hhs, <- Hl. apply nth_middle. }
+  assert (Hin' : forall h, In h (rq_items r') -> h < length (handles s') /\ In h (rq_items (ready s'))).
+  { intros h Hi. assert (Hi' : In h (rq_items (ready s'))).
+    { rewrite It. right. eapply Permutation_in; [apply Permutation_sym; exact Pl0|exact Hi]. }
+    split; [apply (i_rwf (i_wf I') h Hi')|exact Hi']. }
+  exists l, r''. split; [exact El|]. split; [exact Gn|]. split; [exact Gn1|].
+  split; [eapply Permutation_in; [symmetry; exact Pl|]; left; reflexivity|].
+  split; [|split; [|split; [|split; [exact Pp|split; [exact It''|]]]]].
+  - intros h Hi. eapply Permutation_in in Hi; [|exact Pl]. destruct Hi as [<-|Hi].
+    + unfold task_key, task_of_handle. rewrite Gn1. simpl. apply Nat.eqb_neq. exact Hne.
+    + destruct (Hin' h Hi) as [Hlt _]. unfold task_key, task_of_handle. rewrite (Gold h Hlt).
+      apply (Z h Hi).
+  - intros h Hi Hk. eapply Permutation_in in Hi; [|exact Pl]. destruct Hi as [<-|Hi]; [reflexivity|].
+    exfalso. destruct (Hin' h Hi) as [Hlt Hi'].
+    unfold task_key, task_of_handle in Hk. rewrite (Gold h Hlt) in Hk.
+    pose proof (cnt_zero_all _ _ H0 h Hi') as Hk'. unfold task_key, task_of_handle in Hk'. congruence.
+  - rewrite Esf. change (gett (call_soon_ (sett s' t x) (HStep t None) <| current := None |>) t)
+      with (gett (sett s' t x) t). rewrite gett_sett_same by exact Ht'. reflexivity.
+  - apply (run_one_step sf hn r'' t' e); [exact Pp|exact Gn].
+Qed.
+
+(* the step delivering an accepted interrupt adds no loop error *)
+Theorem interrupt_delivery_no_errorW c s t t' e s' :
+  InvC c s -> lib_call t (OTaskInterrupt t' e) s = (s', LSusp YNone [InSleep0]) ->
+  errors s' = errors s /\ errors (run_one s') = errors s.
+Proof.
+  intros I L.
+  destruct (interrupt_nextW c s t t' e s' I L)
+    as (s1 & v & r' & r'' & l & E & Es' & _ & _ & _ & _ & _ & _ & _ & _ & _ & R & Hd & _).
+  pose proof (throw_effect qok QS c s t' e s1 v I E) as TE. cbv zeta in TE.
+  assert (He : errors s' = errors s).
+  { rewrite Es'. change (errors (s1 <| ready := rq_insert_pos r' 0 (length (handles s)) |>)) with (errors s1).
+    apply TE. }
+  split; [exact He|]. rewrite R, step_task_errors.
+  change (tdone (s' <| ready := r'' |>) t') with (tdone s' t'). rewrite Hd. exact He.
 Qed.
 
 End NextW.
